@@ -328,6 +328,7 @@ Inductive fact :=
 | FDef (g : N)                      (* what parse_variable returned *)
 | FBound (n : nat)                  (* n is an instruction boundary *)
 | FLoopsOf (k : comp)                (* used by FullCompileWFJ.v only: k_loops of the current compiler = k_loops k *)
+| FCatch (p t : nat)                (* used by FullCompileWFJ.v only: the PushExcHandler whose operands start at p has catch target t *)
 | FPure (X : Prop).
 
 Definition sem (f : fact) (s : cstate) (g : list ainstr) : Prop :=
@@ -345,6 +346,7 @@ Definition sem (f : fact) (s : cstate) (g : list ainstr) : Prop :=
   | FDef i => 0 < k_scope c \/ kstr (k_consts c) i
   | FBound n => boundary g n
   | FLoopsOf _ => True
+  | FCatch _ _ => True
   | FPure X => X
   end.
 
